@@ -7,8 +7,9 @@ Definition pad (w : nat) (x : str) : str := x ++ repeat sp (w - List.length x).
 Lemma pad_length w x : List.length x <= w -> List.length (pad w x) = w.
 Proof. intros H. unfold pad. rewrite app_length, repeat_length. lia. Qed.
 
+(* m_pad: the byte that pads odd-sized data to even length - the format does not fix it (ar(1) writes a newline) *)
 Record member := { m_name : str; m_slash : bool; m_ts : str; m_uid : str; m_gid : str;
-                   m_mode : str; m_size : str; m_data : str }.
+                   m_mode : str; m_size : str; m_data : str; m_pad : ascii }.
 
 Definition all_digits (x : str) : Prop := Forall (fun c => is_digit c = true) x.
 (* the decimal text t denotes n; the empty text (blank column) denotes 0 *)
@@ -29,7 +30,7 @@ Definition header (m : member) : str :=
   pad 16 (m_name m ++ if m_slash m then [slash] else []) ++ pad 12 (m_ts m) ++ pad 6 (m_uid m) ++
   pad 6 (m_gid m) ++ pad 8 (m_mode m) ++ pad 10 (m_size m) ++ [bq; nl].
 Definition body (m : member) : str :=
-  m_data m ++ (if Nat.odd (List.length (m_data m)) then [nl] else []).
+  m_data m ++ (if Nat.odd (List.length (m_data m)) then [m_pad m] else []).
 Definition render_members (ms : list member) : str := List.concat (map (fun m => header m ++ body m) ms).
 Definition magic : str := s "!<arch>" ++ [nl].
 Definition render_ar (ms : list member) : str := magic ++ render_members ms.
